@@ -789,7 +789,11 @@ class MacroProgram(ElementProgram):
                 decode_htmlentities=self.escape
             )
 
-        node = node.replace('$$', '$')
+        # The ``$$`` escape is part of interpolation: where that is
+        # switched off, the text is written as it stands (like a
+        # comment or a CDATA section).
+        if self._interpolation[-1]:
+            node = node.replace('$$', '$')
 
         if not translation:
             return nodes.Text(node)
